@@ -202,7 +202,47 @@ def options_case(rng):
     return Case("options_dict", {"options": opts, "dict": out}, lines, nontrivial=len(opts) > 1)
 
 
+TWIN = {"der": "das", "Hund": "Band", "bellt": "rennt", "a": "b", "x<y": "x>y", "R&D": "R&B", "it's": "it'd", "1990": "1991",
+        "x=y": "x=z", "lemma": "gamma"}
+
+
+def gz_twin_case(rng):
+    """two gzipped treebanks with the SAME file name (train/ and test/ directories) and the same size but different
+    words, converted one after the other in the same temporary directory: each conversion depends on its own source only"""
+    import gzip
+    G = rng.choice(["export", "brackets", "discobrackets"])
+    cont = G == "brackets"
+    ts1 = mk_corpus(rng, cont, [w for w in TWIN])
+    ts2 = []
+    for t in ts1:
+        c = clone(t)
+        c.data['sid'] = t.data['sid']
+        for x in trees.terminals(c):
+            x.data['word'] = TWIN.get(x.data['word'], x.data['word'])
+        ts2.append(c)
+    texts = [write_src(ts, "export", False) for ts in (ts1, ts2)]
+    lines = []
+    with cli.Scratch() as sc:
+        os.mkdir(sc.path("tmp"))
+        outs = []
+        for i, text in enumerate(texts):
+            os.mkdir(sc.path("d%d" % i))
+            p = os.path.join(sc.path("d%d" % i), "corpus.export.gz")
+            with gzip.open(p, "wb") as f:
+                f.write(text.encode("utf-8"))
+            rc, _, err = cli.run_cli(["transform", p, sc.path("out%d" % i), "--src-format", "export", "--dest-format", G],
+                                     env_extra={"TMPDIR": sc.path("tmp")})
+            outs.append(proto.enc_s(sc.read("out%d" % i)) if rc == 0 else "ERR:" + (err.strip().split("\n")[-1][:60]))
+    for text, out in zip(texts, outs):
+        lines.append(Line("corr", "convert", ["export", "quiet", G, "-", "n", proto.enc_s(text)], out))
+        if not out.startswith("ERR"):
+            lines.append(Line("pred", "P.C03", ["export", G, "f", "f", gram.enc_lines(flines(text)), gram.enc_lines(flines(proto.dec_s(out)))]))
+    return Case("gzip-twins->" + G, {"first": texts[0], "second": texts[1]}, lines, nontrivial=True, tags=["gz"])
+
+
 def gen(seed, tier, scale):
+    for i in range((24 if tier == "quick" else 300) * scale):
+        yield 200000 + i, gz_twin_case(case_rng(seed, ID, 200000 + i))
     idx = 100000
     for _ in range((300 if tier == "quick" else 5000) * scale):
         rng = case_rng(seed, ID, idx)
